@@ -11,6 +11,7 @@ import (
 	"testing"
 
 	scalibr "github.com/google/osv-scalibr"
+	"github.com/google/osv-scalibr/artifact/image/layerscanning/image"
 	"github.com/google/osv-scalibr/extractor"
 	"github.com/google/osv-scalibr/extractor/filesystem"
 	scalibrfs "github.com/google/osv-scalibr/fs"
@@ -39,7 +40,7 @@ type C05Scenario struct {
 
 func (C05) ID() string { return "C05" }
 func (C05) Rule() string {
-	return "layer histories of 1-6 real layers plus 0-3 empty history entries in any position (valid, missing or inconsistent histories) over 1-3 package-list files in the line format 'name version'; per layer each file is untouched, created, rewritten (packages added / removed / version-bumped with identical byte size and identical mtime / kept), deleted by a whiteout of the file or of an ancestor directory, or re-created; in 3 of 4 scenarios every layer carries a unique marker file (distinct diff IDs), otherwise layers may be byte-identical repeats of any earlier one (equal diff IDs, e.g. re-adding what a layer in between removed); distinct created_by per history entry; 1-2 harness extractors with different purl types which may require the same file; real FromV1Image/FromTarball -> real Scanner.ScanContainer (real trace.PopulateLayerDetails re-running the real filesystem.Run on older views); oracle = brute-force recomputation of 'earliest layer L with (purl, location) present in every view L..last' by opening and parsing the file in EVERY actual chain-layer view; evaluation = one load + one container scan; non-trivial = at least one reported package whose origin is not chain layer 0 or whose file was touched by >= 2 layers; distinct = distinct scenario JSON"
+	return "layer histories of 1-6 real layers plus 0-3 empty history entries in any position (valid, missing or inconsistent histories) over 1-3 package-list files in the line format 'name version'; per layer each file is untouched, created, rewritten (packages added / removed / version-bumped with identical byte size and identical mtime / kept), deleted by a whiteout of the file or of an ancestor directory, or re-created; in 3 of 4 scenarios every layer carries a unique marker file (distinct diff IDs), otherwise layers may be byte-identical repeats of any earlier one (equal diff IDs, e.g. re-adding what a layer in between removed); distinct created_by per history entry; 1-2 harness extractors with different purl types which may require the same file; real FromV1Image/FromTarball -> real Scanner.ScanContainer (real trace.PopulateLayerDetails re-running the real filesystem.Run on older views); side check: existence and content of the list files in every view against the OCI overlay model (a departure that no catalogued C04 deviation explains is reported as views-not-overlay); oracle = brute-force recomputation of 'earliest layer L with (purl, location) present in every view L..last' by opening and parsing the file in EVERY actual chain-layer view; evaluation = one load + one container scan; non-trivial = at least one reported package whose origin is not chain layer 0 or whose file was touched by >= 2 layers; distinct = distinct scenario JSON"
 }
 
 var c05Files = []string{"var/lib/db/status", "var/lib/db/extra", "var/lib/alt/status", "etc/pkgs"}
@@ -354,6 +355,10 @@ func (C05) Run(t *testing.T, scAny any) *sim.Outcome {
 		}
 	}
 
+	// "Present in the image-up-to-layer view" only means what the statement says if the views are
+	// the overlay of the layers - at least for the package-list files.
+	checkListFilesAgainstOverlay(out, sc, img, plan, ctxs)
+
 	var fsExts []filesystem.Extractor
 	byName := map[string]*listExtractor{}
 	required := map[string]int{}
@@ -441,6 +446,85 @@ func (C05) Run(t *testing.T, scAny any) *sim.Outcome {
 	out.HistoryFP = sim.FP(hist)
 	out.Count("packages_checked", int64(len(hist)))
 	return out
+}
+
+// checkListFilesAgainstOverlay compares existence and content of the package-list files in
+// every chain-layer view with the OCI overlay model.  Agreement: nothing to say.  A difference
+// that a catalogued deviation set of C04 explains (for all views at once): left to C04, the
+// attribution oracle keeps working from the actual views.  A difference that nothing in the
+// catalogue explains is reported here.
+func checkListFilesAgainstOverlay(out *sim.Outcome, sc *C05Scenario, img *image.Image, plan []ChainElem, ctxs string) {
+	if Ambiguous(&sc.Image) != "" {
+		out.Count("list_files_vs_overlay_skipped", 1)
+		return
+	}
+	set := map[string]bool{}
+	for _, e := range sc.Extractors {
+		for _, f := range e.Files {
+			set[f] = true
+		}
+	}
+	files := sortedKeys(set)
+	views, _ := ObserveImage(img, files)
+	if len(views) != len(plan) {
+		return // reported as chain-alignment
+	}
+	var upto [][]int
+	var cur []int
+	for _, p := range plan {
+		if p.Layer >= 0 {
+			cur = append(cur, p.Layer)
+		}
+		upto = append(upto, append([]int(nil), cur...))
+	}
+	diff := func(dev DevSet) []string {
+		var out []string
+		for i := range views {
+			mv := RefOverlay(&sc.Image, upto[i], dev, i == len(plan)-1)
+			for _, f := range files {
+				o := views[i].Look[f]
+				m, found, ok := mv.Resolve(f)
+				switch {
+				case !ok:
+				case !found || m.Kind != "f":
+					if o.Type == "f" {
+						out = append(out, fmt.Sprintf("view %d: %s holds %q, the overlay has no such file", i, f, o.Data))
+					}
+				case o.Type != "f":
+					out = append(out, fmt.Sprintf("view %d: %s is missing (%s), the overlay has %q", i, f, o.Err, m.Data))
+				case o.Data != m.Data && !m.Unreadable:
+					out = append(out, fmt.Sprintf("view %d: %s holds %q, the overlay has %q", i, f, o.Data, m.Data))
+				}
+			}
+		}
+		return out
+	}
+	strict := diff(nil)
+	if len(strict) == 0 {
+		return
+	}
+	out.Count("list_files_depart_from_overlay", 1)
+	for _, d := range allDevSubsets {
+		if len(diff(d)) == 0 {
+			out.Count("list_files_departure_explained_by_catalogued_deviation", 1)
+			return
+		}
+	}
+	what := map[string]bool{}
+	for _, d := range strict {
+		switch {
+		case strings.Contains(d, "is missing"):
+			what["file-missing"] = true
+		case strings.Contains(d, "no such file"):
+			what["file-not-deleted"] = true
+		default:
+			what["wrong-content"] = true
+		}
+	}
+	if len(strict) > 4 {
+		strict = strict[:4]
+	}
+	out.Violate("views-not-overlay", "views-not-overlay:"+strings.Join(sortedKeys(what), "+"), "the package-list files in the chain-layer views are neither those of the OCI overlay of the layers nor explained by a catalogued view deviation, so 'present in the view up to layer i' does not mean what the statement says: %s; %s", strings.Join(strict, " | "), ctxs)
 }
 
 // layerWrites: does real layer li carry a regular-file entry for loc?  Under the overlay rules
